@@ -371,11 +371,13 @@ def run_C02(ctx):
     sc = []
     for v in range(40):
         for e in range(4):
-            d = T["data_codewords"][e][v]
-            data = bytes(((i * 7 + 3) % 251) + 1 for i in range(d))
+            g = T["ecc_groups"][e][v]
+            d = max(T["data_codewords"][e][v], g[0] * g[1] + g[2] * g[3])
+            tot = T["max_bytes"][v]          # the pipeline hands structure() a buffer of at least max_bytes bytes
+            data = bytes(((i * 7 + 3) % 251) + 1 for i in range(d)) + bytes(tot - d)
             sc.append("struct %d %d %s" % (e, v, hexs(data)))
             if not ctx.quick or (v + e) % 5 == 0:
-                sc.append("struct %d %d %s" % (e, v, hexs(bytes(ctx.rng.randrange(256) for _ in range(d)))))
+                sc.append("struct %d %d %s" % (e, v, hexs(bytes(ctx.rng.randrange(256) for _ in range(d)) + bytes(tot - d))))
     simpl, _ = ctx.correspond("structure", sc)
     tr = []
     for c, o in zip(sc, simpl):
@@ -646,7 +648,7 @@ def run_C08(ctx):
         b = pl["place %s %s" % (p[1], p[3])].split()
         a = o.split()
         if len(a) == 4 and len(b) == 4 and a[0] == "OK":
-            tr.append(("omask %s %s %s %s" % (p[2], a[1], b[2], a[2]), "1", {"case": c[:200]}))
+            tr.append(("omaskiso %s %s %s %s" % (p[2], a[1], b[2], a[2]), "1", {"case": c[:200]}))
         else:
             ctx.direct_failure("mask", {"case": c[:200]}, o[:60])
     ctx.oracle("iso_mask", tr)
@@ -1028,10 +1030,11 @@ def run_C13(ctx):
             cases.append("raster %d %s shape=%d margin=%d fg=%s bg=%s fitw=%d" % (n, hx, sh, margin, fg, bg, side * k))
             if not ctx.quick or sh % 2 == 0:
                 cases.append("raster %d %s shape=%d margin=%d fg=%s bg=%s fith=%d" % (n, hx, sh, margin, fg, bg, side * 4 + rng.randrange(0, side)))
-            if not ctx.quick or sh == 1:
-                cases.append("raster %d %s shape=%d margin=%d fitw=%d fith=%d" % (n, hx, sh, margin, side * 6, side * 4))
+            if not ctx.quick or sh in (1, 4):
+                a_, b_ = (side * 6, side * 4) if sh % 2 else (side * 4, side * 5)
+                cases.append("raster %d %s shape=%d margin=%d fitw=%d fith=%d" % (n, hx, sh, margin, a_, b_))
     if ctx.quick:
-        cases = cases[:70]
+        cases = cases[:90]
     impl, _ = ctx.correspond("raster", cases)
     no_panic(ctx, "raster", cases, impl)
     ctx.count_oracle("pixel_classes", len(cases))
@@ -1040,6 +1043,12 @@ def run_C13(ctx):
         if len(q) == 6 and q[0] == "OK":
             if q[1] != q[2]:
                 ctx.direct_failure("square_pixmap", {"case": c[:300]}, "pixmap is %sx%s" % (q[1], q[2]))
+            opts = dict(o.split("=", 1) for o in c.split()[3:])
+            side = int(c.split()[1]) + 2 * int(opts.get("margin", 4))
+            fw, fh = opts.get("fitw"), opts.get("fith")
+            want = min(int(fw), int(fh)) if (fw and fh) else int(fw) if fw else int(fh) if fh else side
+            if int(q[1]) != want:
+                ctx.direct_failure("pixmap_side", {"case": c[:300]}, "pixmap side %s, the largest square satisfying the request is %d" % (q[1], want))
             if q[3] != "0" or q[4] != "0":
                 ctx.direct_failure("pixel_classes", {"case": c[:300]}, "centre mismatches %s, full-cell mismatches %s" % (q[3], q[4]))
             if q[5] != "1":
